@@ -143,7 +143,8 @@ def structural(tier, res):
     """every pattern that cmd_discover suggests is built from _matched_description(...) - never from the raw description"""
     from pyvc import frames
     fi = find_function(D + 'cmd_discover')
-    calls = [n for n in ast.walk(fi.node) if isinstance(n, ast.Call) and isinstance(n.func, ast.Name) and n.func.id == 'suggest_pattern']
+    # wherever the module calls suggest_pattern - in cmd_discover itself or in a helper it was moved to
+    calls = [n for n in ast.walk(fi.mod.tree) if isinstance(n, ast.Call) and isinstance(n.func, ast.Name) and n.func.id == 'suggest_pattern']
     bad = [ast.unparse(c) for c in calls if not (len(c.args) == 1 and isinstance(c.args[0], ast.Call) and isinstance(c.args[0].func, ast.Name)
                                                   and c.args[0].func.id == '_matched_description')]
     ok = bool(calls) and not bad
